@@ -1,6 +1,6 @@
 #!/bin/sh
 # seedtest.sh <patch.diff> <property-id> [tier]: apply a seeded change to /repo, run the check, undo it.
-P=$1; ID=$2; TIER=${3:-quick}
+P=$(readlink -f "$1"); ID=$2; TIER=${3:-quick}
 cd /repo || exit 2
 git diff --quiet || { echo "/repo has uncommitted changes"; exit 2; }
 git apply "$P" || { echo "patch does not apply"; exit 2; }
